@@ -2,12 +2,14 @@ import Deb822Verif.Driver.Pgp
 import Deb822Verif.Driver.Deb
 import Deb822Verif.Driver.Rel
 import Deb822Verif.Driver.Cpr
+import Deb822Verif.Driver.Total
 open Deb822Verif
 
 def dispatch (op : String) (args : List String) : String :=
   let r := (Driver.Pgp.handle op args) <|> (Driver.Deb.handle op args)
     <|> (Driver.Rel.handle op args)
     <|> (Driver.Cpr.handle op args)
+    <|> (Driver.Total.handle op args)
   match r with
   | some s => s
   | none => "bad-op"
